@@ -1,3 +1,4 @@
 /- Props/C01.lean — property C01: all theorems live in namespace CM.Props.C01, split over two files. -/
+import CircuitProofs.Props.C01Tie
 import CircuitProofs.Props.C01Seq
 import CircuitProofs.Props.C01Conc
